@@ -21,10 +21,10 @@ namespace Ari.Spec
 def expectedSub : List (String × List String) :=
  [("_ItemTaskManager.__init__", ["W self._item_name", "C deque", "W self._tasks_deq", "W self._code", "W self._isrunning", "C threading.Lock", "W self._lock", "W self._queued", "W self._last_subscribe_outcome", "W self._subscription_mgr"]),
   ("_ItemTaskManager.inc_queued", ["R self._queued", "W self._queued"]),
-  ("_ItemTaskManager.add_task", ["L+ self._lock", "R self._tasks_deq", "C self._tasks_deq.append", "R self._isrunning", "IF", "W self._isrunning", "R self._subscription_mgr", "R self._deque", "C self._subscription_mgr.execute_task", "END", "L- self._lock"]),
+  ("_ItemTaskManager.add_task", ["L+ self._lock", "R self._tasks_deq", "C self._tasks_deq.append", "R self._isrunning", "IF not self._isrunning", "W self._isrunning", "R self._subscription_mgr", "R self._deque", "C self._subscription_mgr.execute_task", "END", "L- self._lock"]),
   ("_ItemTaskManager.code", ["R self._code", "RETURN"]),
-  ("_ItemTaskManager._deque", ["WHILE", "L+ self._lock", "IF", "R self._last_subscribe_outcome", "END", "R self._tasks_deq", "IF", "W self._isrunning", "W self._last_subscribe_outcome", "BREAK", "END", "R self._tasks_deq", "C self._tasks_deq.popleft", "R self._tasks_deq", "L- self._lock", "TRY", "IF", "IF", "C item_task.do_late_task", "ELSE", "L+ self._subscription_mgr.sync_items()", "W self._code", "L- self._subscription_mgr.sync_items()", "C item_task.do_task", "END", "ELSE", "IF", "C item_task.do_task", "ELSE", "C item_task.do_late_task", "END", "L+ self._subscription_mgr.sync_items()", "W self._code", "L- self._subscription_mgr.sync_items()", "END", "EXCEPT RemotingException", "END", "END", "L+ self._subscription_mgr.sync_items()", "C self._dec_queued", "L- self._subscription_mgr.sync_items()"]),
-  ("_ItemTaskManager._dec_queued", ["R self._queued", "W self._queued", "R self._code", "R self._queued", "IF", "R self._subscription_mgr", "R self._item_name", "C self._subscription_mgr.get_item_mgr", "IF", "ELSE", "IF", "ELSE", "R self._subscription_mgr", "R self._item_name", "C self._subscription_mgr.del_active_item", "END", "END", "END"]),
+  ("_ItemTaskManager._deque", ["WHILE True", "L+ self._lock", "IF _ == 0", "R self._last_subscribe_outcome", "END", "R self._tasks_deq", "IF len(self._tasks_deq) == 0", "W self._isrunning", "W self._last_subscribe_outcome", "BREAK", "END", "R self._tasks_deq", "C self._tasks_deq.popleft", "R self._tasks_deq", "L- self._lock", "TRY", "IF _.issubscribe", "IF not _", "C item_task.do_late_task", "ELSE", "L+ self._subscription_mgr.sync_items()", "W self._code", "L- self._subscription_mgr.sync_items()", "C item_task.do_task", "END", "ELSE", "IF _", "C item_task.do_task", "ELSE", "C item_task.do_late_task", "END", "L+ self._subscription_mgr.sync_items()", "W self._code", "L- self._subscription_mgr.sync_items()", "END", "EXCEPT RemotingException", "END", "END", "L+ self._subscription_mgr.sync_items()", "C self._dec_queued", "L- self._subscription_mgr.sync_items()"]),
+  ("_ItemTaskManager._dec_queued", ["R self._queued", "W self._queued", "R self._code", "R self._queued", "IF not self._code and self._queued == 0", "R self._subscription_mgr", "R self._item_name", "C self._subscription_mgr.get_item_mgr", "IF not _", "ELSE", "IF _ != self", "ELSE", "R self._subscription_mgr", "R self._item_name", "C self._subscription_mgr.del_active_item", "END", "END", "END"]),
   ("ItemTask.__init__", ["W self._request_id", "W self._issubscribe", "W self._do_task", "W self._do_late_task"]),
   ("ItemTask.do_task", ["C self._do_task", "RETURN"]),
   ("ItemTask.do_late_task", ["C self._do_late_task"]),
@@ -32,17 +32,17 @@ def expectedSub : List (String × List String) :=
   ("ItemTask.issubscribe", ["R self._issubscribe", "RETURN"]),
   ("SubscriptionManager.__init__", ["W self._executor", "W self._active_items", "C threading.RLock", "W self._active_items_lock"]),
   ("SubscriptionManager.execute_task", ["R self._executor", "C self._executor.submit"]),
-  ("SubscriptionManager.do_subscription", ["L+ self._active_items_lock", "R self._active_items", "IF", "C _ItemTaskManager", "W self._active_items[]", "END", "R self._active_items", "C item_manager.inc_queued", "L- self._active_items_lock", "C item_manager.add_task"]),
-  ("SubscriptionManager.do_unsubscription", ["L+ self._active_items_lock", "R self._active_items", "IF", "RETURN", "END", "R self._active_items", "C item_manager.inc_queued", "L- self._active_items_lock", "C item_manager.add_task"]),
+  ("SubscriptionManager.do_subscription", ["L+ self._active_items_lock", "R self._active_items", "IF _ not in self._active_items", "C _ItemTaskManager", "W self._active_items[]", "END", "R self._active_items", "C item_manager.inc_queued", "L- self._active_items_lock", "C item_manager.add_task"]),
+  ("SubscriptionManager.do_unsubscription", ["L+ self._active_items_lock", "R self._active_items", "IF _ not in self._active_items", "RETURN", "END", "R self._active_items", "C item_manager.inc_queued", "L- self._active_items_lock", "C item_manager.add_task"]),
   ("SubscriptionManager.sync_items", ["L+ self._active_items_lock", "YIELD", "L- self._active_items_lock"]),
   ("SubscriptionManager.get_item_mgr", ["R self._active_items", "C self._active_items.get", "RETURN"]),
-  ("SubscriptionManager.get_active_item", ["L+ self._active_items_lock", "R self._active_items", "IF", "R self._active_items", "RETURN", "END", "L- self._active_items_lock", "RETURN"]),
-  ("SubscriptionManager.del_active_item", ["R self._active_items", "IF", "W self._active_items[]", "END"]),
-  ("DataProviderServer._on_sub", ["C data_protocol.read_sub", "DEF do_task", "TRY", "R self._adapter", "C self._adapter.issnapshot_available", "IF", "C self.end_of_snapshot", "END", "R self._adapter", "C self._adapter.subscribe", "EXCEPT Exception", "C data_protocol.write_sub", "ELSE", "C data_protocol.write_sub", "END", "C self._send_reply", "RETURN", "END", "DEF do_late_task", "C SubscribeError", "C data_protocol.write_sub", "C self._send_reply", "END", "C ItemTask", "R self._subscription_mgr", "C self._subscription_mgr.do_subscription"]),
+  ("SubscriptionManager.get_active_item", ["L+ self._active_items_lock", "R self._active_items", "IF _ in self._active_items", "R self._active_items", "RETURN", "END", "L- self._active_items_lock", "RETURN"]),
+  ("SubscriptionManager.del_active_item", ["R self._active_items", "IF _ in self._active_items", "W self._active_items[]", "END"]),
+  ("DataProviderServer._on_sub", ["C data_protocol.read_sub", "DEF do_task", "TRY", "R self._adapter", "C self._adapter.issnapshot_available", "IF _ is False", "C self.end_of_snapshot", "END", "R self._adapter", "C self._adapter.subscribe", "EXCEPT Exception", "C data_protocol.write_sub", "ELSE", "C data_protocol.write_sub", "END", "C self._send_reply", "RETURN", "END", "DEF do_late_task", "C SubscribeError", "C data_protocol.write_sub", "C self._send_reply", "END", "C ItemTask", "R self._subscription_mgr", "C self._subscription_mgr.do_subscription"]),
   ("DataProviderServer._on_usb", ["C data_protocol.read_usub", "DEF do_task", "TRY", "R self._adapter", "C self._adapter.unsubscribe", "EXCEPT Exception", "C data_protocol.write_unsub", "ELSE", "C data_protocol.write_unsub", "END", "C self._send_reply", "RETURN", "END", "DEF do_late_task", "C data_protocol.write_unsub", "C self._send_reply", "END", "C ItemTask", "R self._subscription_mgr", "C self._subscription_mgr.do_unsubscription"]),
-  ("DataProviderServer.update", ["R self._subscription_mgr", "C self._subscription_mgr.get_active_item", "IF", "TRY", "C data_protocol.write_update_map", "C self._send_notify", "EXCEPT RemotingException", "C self.on_exception", "END", "ELSE", "END"]),
-  ("DataProviderServer.end_of_snapshot", ["R self._subscription_mgr", "C self._subscription_mgr.get_active_item", "IF", "TRY", "C data_protocol.write_eos", "C self._send_notify", "EXCEPT RemotingException", "C self.on_exception", "END", "ELSE", "END"]),
-  ("DataProviderServer.clear_snapshot", ["R self._subscription_mgr", "C self._subscription_mgr.get_active_item", "IF", "TRY", "C data_protocol.write_cls", "C self._send_notify", "EXCEPT RemotingException", "C self.on_exception", "END", "ELSE", "END"]),
+  ("DataProviderServer.update", ["R self._subscription_mgr", "C self._subscription_mgr.get_active_item", "IF _", "TRY", "C data_protocol.write_update_map", "C self._send_notify", "EXCEPT RemotingException", "C self.on_exception", "END", "ELSE", "END"]),
+  ("DataProviderServer.end_of_snapshot", ["R self._subscription_mgr", "C self._subscription_mgr.get_active_item", "IF _", "TRY", "C data_protocol.write_eos", "C self._send_notify", "EXCEPT RemotingException", "C self.on_exception", "END", "ELSE", "END"]),
+  ("DataProviderServer.clear_snapshot", ["R self._subscription_mgr", "C self._subscription_mgr.get_active_item", "IF _", "TRY", "C data_protocol.write_cls", "C self._send_notify", "EXCEPT RemotingException", "C self.on_exception", "END", "ELSE", "END"]),
   ("DataProviderServer.failure", ["TRY", "C data_protocol.write_failure", "C self._send_notify", "EXCEPT RemotingException", "C self.on_exception", "END"]),
   ("DataProviderServer._send_notify", ["R self._request_manager", "C self._request_manager.send_notify"]),
   ("DataProviderServer._handle_exception", ["C traceback.print_exc", "TRY", "C data_protocol.write_failure", "C self._send_notify", "EXCEPT RemotingException", "END", "RETURN"])]
@@ -52,9 +52,9 @@ def expectedSub : List (String × List String) :=
 def expectedSender : List (String × List String) :=
  [("_Sender.__init__", ["W self._sock", "W self._server", "W self._name", "W self._log", "W self._keepalive", "W self._keep_alive_log", "W self._send_queue", "W self._send_thread", "W self._notification_log"]),
   ("_Sender.start", ["C queue.Queue", "W self._send_queue", "R self._do_run", "R self._name", "C Thread", "W self._send_thread", "R self._send_thread", "C self._send_thread.start"]),
-  ("_Sender.send", ["IF", "ELSE", "END", "R self._send_queue", "C self._send_queue.put"]),
-  ("_Sender._do_run", ["WHILE", "TRY", "R self._log", "R self._keepalive", "IF", "TRY", "R self._send_queue", "R self._keepalive", "C self._send_queue.get", "EXCEPT queue.Empty", "R self._keep_alive_log", "END", "ELSE", "R self._send_queue", "C self._send_queue.get", "END", "IF", "BREAK", "END", "IF", "R self._keep_alive_log", "END", "R self._sock", "C self._sock.sendall", "EXCEPT OSError", "R self._server", "C self._server.on_ioexception", "BREAK", "EXCEPT Exception", "R self._server", "C self._server.on_exception", "BREAK", "END", "END"]),
-  ("_Sender.change_keep_alive", ["W self._keepalive", "IF", "R self._send_queue", "C self._send_queue.put", "END"]),
+  ("_Sender.send", ["IF _", "ELSE", "END", "R self._send_queue", "C self._send_queue.put"]),
+  ("_Sender._do_run", ["WHILE True", "TRY", "R self._log", "R self._keepalive", "IF self._keepalive > 0", "TRY", "R self._send_queue", "R self._keepalive", "C self._send_queue.get", "EXCEPT queue.Empty", "R self._keep_alive_log", "END", "ELSE", "R self._send_queue", "C self._send_queue.get", "END", "IF _ == _Sender._STOP_WAITING_PILL", "BREAK", "END", "IF _ is None or _ == _Sender._KEEPALIVE_PILL", "R self._keep_alive_log", "END", "R self._sock", "C self._sock.sendall", "EXCEPT OSError", "R self._server", "C self._server.on_ioexception", "BREAK", "EXCEPT Exception", "R self._server", "C self._server.on_exception", "BREAK", "END", "END"]),
+  ("_Sender.change_keep_alive", ["W self._keepalive", "IF _", "R self._send_queue", "C self._send_queue.put", "END"]),
   ("_Sender.quit", ["R self._send_queue", "C self._send_queue.put", "R self._send_thread"])]
 
 /-- **Reader** — the reader loop (`Framing.lean`, `Dispatch.lean`): recv, EOF, splitlines, one `on_received_request` per complete
@@ -62,21 +62,21 @@ def expectedSender : List (String × List String) :=
 def expectedReader : List (String × List String) :=
  [("_RequestManager.__init__", ["C logging.getLogger", "W self._log", "W self._sock", "W self._server", "C logging.getLogger", "C logging.getLogger", "R self._server", "R self._server", "C _Sender", "W self._reply_sender", "R self._reply_sender", "W ._keep_alive_log", "C Event", "W self._stop_request", "R self._reply_sender", "C self._reply_sender.start"]),
   ("_RequestManager.startReceiving", ["R self._do_run", "R self._server", "R self._sock", "C Thread", "C thread.start"]),
-  ("_RequestManager._do_run", ["R self._stop_request", "C self._stop_request.is_set", "WHILE", "TRY", "C sock.recv", "IF", "C EOFError", "RAISE", "END", "C buffer.splitlines", "FOR", "C token.endswith", "IF", "R self._server", "C self._server.on_received_request", "ELSE", "END", "END", "EXCEPT (OSError, EOFError)", "R self._stop_request", "C self._stop_request.is_set", "IF", "BREAK", "END", "R self._server", "C self._server.on_ioexception", "BREAK", "EXCEPT Exception", "R self._server", "C self._server.on_exception", "BREAK", "END", "END"]),
+  ("_RequestManager._do_run", ["R self._stop_request", "C self._stop_request.is_set", "WHILE not self._stop_request.is_set()", "TRY", "C sock.recv", "IF not _", "C EOFError", "RAISE", "END", "C buffer.splitlines", "FOR", "C token.endswith", "IF _.endswith('\\n')", "R self._server", "C self._server.on_received_request", "ELSE", "END", "END", "EXCEPT (OSError, EOFError)", "R self._stop_request", "C self._stop_request.is_set", "IF self._stop_request.is_set()", "BREAK", "END", "R self._server", "C self._server.on_ioexception", "BREAK", "EXCEPT Exception", "R self._server", "C self._server.on_exception", "BREAK", "END", "END"]),
   ("_RequestManager.send_reply", ["R self._reply_sender", "C self._reply_sender.send"]),
   ("_RequestManager.send_notify", ["R self._reply_sender", "C self._reply_sender.send"]),
   ("_RequestManager.change_keep_alive", ["R self._reply_sender", "C self._reply_sender.change_keep_alive"]),
   ("_RequestManager.quit", ["R self._stop_request", "C self._stop_request.set", "R self._reply_sender", "C self._reply_sender.quit"]),
-  ("Server.on_received_request", ["TRY", "C protocol.parse_request", "IF", "RETURN", "END", "C self._handle_received_request", "EXCEPT RemotingException", "C self.on_exception", "END"]),
-  ("Server.on_exception", ["R self._exception_handler", "IF", "R self._exception_handler", "C self._exception_handler.handle_exception", "IF", "RETURN", "END", "END", "C self._handle_exception", "RETURN"]),
-  ("Server.on_ioexception", ["R self._exception_handler", "IF", "R self._exception_handler", "C self._exception_handler.handle_ioexception", "IF", "RETURN", "END", "END", "C self._handle_ioexception", "RETURN"]),
+  ("Server.on_received_request", ["TRY", "C protocol.parse_request", "IF _ is None", "RETURN", "END", "C self._handle_received_request", "EXCEPT RemotingException", "C self.on_exception", "END"]),
+  ("Server.on_exception", ["R self._exception_handler", "IF self._exception_handler is not None", "R self._exception_handler", "C self._exception_handler.handle_exception", "IF not self._exception_handler.handle_exception(_)", "RETURN", "END", "END", "C self._handle_exception", "RETURN"]),
+  ("Server.on_ioexception", ["R self._exception_handler", "IF self._exception_handler is not None", "R self._exception_handler", "C self._exception_handler.handle_ioexception", "IF not self._exception_handler.handle_ioexception(_)", "RETURN", "END", "END", "C self._handle_ioexception", "RETURN"]),
   ("Server._handle_exception", ["RETURN"]),
   ("Server._handle_ioexception", ["C os._exit", "RETURN"])]
 
 /-- **Lifecycle** — `start()` (socket, request manager + writer, credentials, THEN the reader thread, then the hook) and
     `close()` (quit, pool shutdown, socket close) (`Startup.lean`, `Dispatch.act .closeOk`). -/
 def expectedLifecycle : List (String × List String) :=
- [("Server.start", ["R self.keep_alive", "IF", "ELSE", "END", "R self._config", "R self._ssl_context", "C create_socket_and_connect", "W self._server_sock", "R self._server_sock", "R self.keep_alive", "C _RequestManager", "W self._request_manager", "C self._send_remote_credentials", "R self._request_manager", "C self._request_manager.startReceiving", "C self._on_request_manager_started"]),
+ [("Server.start", ["R self.keep_alive", "IF self.keep_alive > 0", "ELSE", "END", "R self._config", "R self._ssl_context", "C create_socket_and_connect", "W self._server_sock", "R self._server_sock", "R self.keep_alive", "C _RequestManager", "W self._request_manager", "C self._send_remote_credentials", "R self._request_manager", "C self._request_manager.startReceiving", "C self._on_request_manager_started"]),
   ("Server.close", ["R self._request_manager", "C self._request_manager.quit", "R self._executor", "C self._executor.shutdown", "R self._server_sock", "C self._server_sock.close"]),
   ("Server._send_remote_credentials", ["R self.remote_user", "R self.remote_password", "C protocol.write_credentials", "C self._send_reply"]),
   ("Server._send_reply", ["R self._request_manager", "C self._request_manager.send_reply"]),
@@ -88,8 +88,8 @@ def expectedLifecycle : List (String × List String) :=
 /-- **MetaPool** — `_handle_request` of both servers: init gating on the reader thread, everything else of the Metadata server
     wrapped in `execute_and_reply` and submitted to the pool (`Conc/Pool.lean`), SUB/USB handed to the subscription manager. -/
 def expectedMetaPool : List (String × List String) :=
- [("MetadataProviderServer._handle_request", ["R self.init_expected", "IF", "C RemotingException", "RAISE", "END", "R self.init_expected", "IF", "C RemotingException", "RAISE", "END", "IF", "W self.init_expected", "C self._on_mpi", "C self._send_reply", "RETURN", "END", "C method_name.lower", "TRY", "EXCEPT AttributeError", "RETURN", "END", "C on_method", "DEF execute_and_reply", "TRY", "C async_func", "C self._send_reply", "EXCEPT Exception", "C self.on_exception", "END", "END", "R self._executor", "C self._executor.submit"]),
-  ("DataProviderServer._handle_request", ["R self.init_expected", "IF", "C RemotingException", "RAISE", "END", "R self.init_expected", "IF", "C RemotingException", "RAISE", "END", "IF", "W self.init_expected", "C self._on_dpi", "C self._send_reply", "ELSE", "IF", "C self._on_sub", "ELSE", "IF", "C self._on_usb", "ELSE", "END", "END", "END"])]
+ [("MetadataProviderServer._handle_request", ["R self.init_expected", "IF _ and (not self.init_expected)", "C RemotingException", "RAISE", "END", "R self.init_expected", "IF not _ and self.init_expected", "C RemotingException", "RAISE", "END", "IF _", "W self.init_expected", "C self._on_mpi", "C self._send_reply", "RETURN", "END", "C method_name.lower", "TRY", "EXCEPT AttributeError", "RETURN", "END", "C on_method", "DEF execute_and_reply", "TRY", "C async_func", "C self._send_reply", "EXCEPT Exception", "C self.on_exception", "END", "END", "R self._executor", "C self._executor.submit"]),
+  ("DataProviderServer._handle_request", ["R self.init_expected", "IF _ and (not self.init_expected)", "C RemotingException", "RAISE", "END", "R self.init_expected", "IF not _ and self.init_expected", "C RemotingException", "RAISE", "END", "IF _", "W self.init_expected", "C self._on_dpi", "C self._send_reply", "ELSE", "IF _ == 'SUB'", "C self._on_sub", "ELSE", "IF _ == 'USB'", "C self._on_usb", "ELSE", "END", "END", "END"])]
 
 /-- which methods assign each piece of shared state (nothing else in the package may). -/
 def expectedWriters : List (String × List String) :=
